@@ -10,7 +10,7 @@ import math
 
 from .. import wire, gen, common, routes
 from ..core import call, sm, X, Report, write_evidence, Batch
-from ..engine import NumCase, ExprCase, judge_numeric, judge_expr, widen, _num_answer
+from ..engine import NumCase, ExprCase, judge_numeric, judge_expr, widen, _num_answer, answers_agree
 from . import c02
 
 PID = "C06"
@@ -125,6 +125,15 @@ def check_cases(cases: list[dict], rep: Report, known: dict) -> None:
             if close(bad[0].impl, bad[1].impl, tol):
                 rep.count("verdicts", "routes-agree-after-widening")
                 bad = None
+        if bad and bad[0].impl[0] != bad[1].impl[0]:
+            # one route raised, the other returned: could a guard have been decided by rounding alone
+            # (underflow of x*x in a derivative formula, say)?  Ask the guard-decision variants.
+            vb = Batch()
+            ii = [[vb.ask(f"F{k} " + z.suffix) for k in (1, 2, 3)] for z in bad]
+            vb.run()
+            if any(vb[i].split(" ")[0] != z.info["model_F0"].split(" ")[0] for z, idx in zip(bad, ii) for i in idx):
+                rep.skip("rounding-ambiguous")
+                bad = None
         if bad:
             info = dict(c, routes={nc.info["route"]: nc.info["impl"] for nc in group})
             if k1_explains(c, e, p):
@@ -186,16 +195,29 @@ def expr_checks(c: dict, e, p, rep: Report) -> list:
         same = True
         g = gen.Gen(__import__("random").Random(len(c["e"])))
         vs = common.names_of(e)
+        tl, te = wire.expr(fl[1]), wire.expr(fe[1])
+        sb = Batch()
+        idx = []
         for q in [p._coordinates] + [g.point(vs) for _ in range(4)]:
             e0, q0 = gen.safe_numbers(e, q)
-            from smoothmath import Point
-            pt = Point(**q0)
-            if call(e.at, pt)[0] != "ok":
+            qt = wire.point(q0)
+            idx.append((sb.ask(f"F0 eval {c['e']} {qt}"), sb.ask(f"F0 eval {tl} {qt}"), sb.ask(f"F0 eval {te} {qt}"), qt))
+        sb.run()
+        for i0, i1, i2, qt in idx:
+            if not sb[i0].startswith("ok"):
+                continue            # only points where the original is defined count
+            a, b_ = _num_answer(sb[i1]), _num_answer(sb[i2])
+            if a[0] == "ok" and b_[0] == "ok" and answers_agree(a, b_):
                 continue
-            a, b = call(fl[1].at, pt), call(fe[1].at, pt)
-            scale = max(abs(float(a[1])) if a[0] == "ok" else 1.0, 1.0)
-            if not close(a, b, 1e-8 * scale):
-                same = False
+            vb = Batch()
+            jj = [(vb.ask(f"F{k} eval {tl} {qt}"), vb.ask(f"F{k} eval {te} {qt}")) for k in (1, 2, 3)]
+            vb.run()
+            va, vbb = [_num_answer(vb[x_]) for x_, _ in jj], [_num_answer(vb[y_]) for _, y_ in jj]
+            if any(v[0] != a[0] for v in va) or any(v[0] != b_[0] for v in vbb):
+                continue            # decided by rounding
+            if a[0] == "ok" and b_[0] == "ok" and answers_agree(widen(a, va), widen(b_, vbb)):
+                continue
+            same = False
         if same:
             rep.known("K2", "Differential early (reverse symbolic) and late (forward symbolic) as_expression() differ structurally though they denote the same function",
                       {"e": c["e"], "x": x, "early": repr(fe[1])[:200], "late": repr(fl[1])[:200]})
